@@ -357,7 +357,32 @@ pub fn tlong(g: &mut Gen, shard: usize) {
     }
     g.op("hash 0".into());
     g.op("trav 0 -".into());
-    g.sample(format!("tlong: one batch of {last} upserts after a hash, probed at {probes:?}"));
+    // ONE PAGE gaining exactly 255 / 256 / 257 / 511 / 512 / 513 / 768 NEW nodes between two hash
+    // requests (no overwrite, no descent through it, no split of it): anything that summarises a page
+    // in a narrow integer (node count, length) and trusts the summary instead of invalidating
+    for (t, grow) in [255usize, 256, 257, 511, 512, 513, 768].into_iter().enumerate() {
+        let t = 2 + t;
+        g.op(format!("new {t} {base} n={n}"));
+        g.op(format!("ups {t} x0000 {} {}", xtok(&digest_for_level(0, base, n, 2)), xtok(&val_digest(1, n))));
+        g.op(format!("hash {t}"));
+        for i in 0..grow {
+            let k = vec![0x01, (i >> 8) as u8, i as u8];
+            g.op(format!("ups {t} {} {} {}", xtok(&k), xtok(&digest_for_level(0, base, n, 4)), xtok(&val_digest(1, n))));
+        }
+        g.op(format!("cach {t}"));
+        g.op(format!("hash {t}"));
+        g.op(format!("ser {t}"));
+        // and the same amount once more on the now-hashed wide page, appended at the front
+        for i in 0..grow {
+            let k = vec![0x00, 0x01, (i >> 8) as u8, i as u8];
+            g.op(format!("ups {t} {} {} {}", xtok(&k), xtok(&digest_for_level(0, base, n, 6)), xtok(&val_digest(2, n))));
+        }
+        g.op(format!("hash {t}"));
+        g.op(format!("trav {t} -"));
+        g.cases += 1;
+        g.shapes.insert(1_000_000 + grow as u64);
+    }
+    g.sample(format!("tlong: one batch of {last} upserts after a hash, probed at {probes:?}; one page growing by 255..768 nodes between two hash requests"));
 }
 
 // ------------------------------------------------------------------------------------------------
@@ -2054,10 +2079,26 @@ pub fn tcfg(g: &mut Gen, r: &mut Rng, bases: &[u8], widths: &[usize], per_cfg_ke
                 for i in 0..per_cfg_keys * 2 {
                     let key: Vec<u8> = match key_kind {
                         "fixed8" => (r.below(60)).to_be_bytes().to_vec(),
-                        "string" => format!("key-{}", r.below(60)).into_bytes(),
+                        "string" => {
+                            // a third: strings with unusual CONTENT (empty, NUL, multibyte UTF-8, 0xC3BF = ÿ,
+                            // exactly 16 bytes like a page digest, trailing NUL)
+                            const ODD: [&str; 10] = ["", "\u{0}", "é", "日本語", "key-\u{0}x", "a\u{ff}b", "0123456789abcdef", "ключ", "k\u{0}", "🦀"];
+                            if r.chance(1, 3) {
+                                ODD[r.below(10) as usize].as_bytes().to_vec()
+                            } else {
+                                format!("key-{}", r.below(60)).into_bytes()
+                            }
+                        }
                         _ => {
-                            let len = r.below(5) as usize;
-                            (0..len).map(|_| r.below(4) as u8).collect()
+                            if r.chance(1, 4) {
+                                // 16 bytes (the width of a page digest), high bytes, leading zero
+                                let mut k: Vec<u8> = (0..16).map(|_| [0x00u8, 0xff, 0x80, 0x01][r.below(4) as usize]).collect();
+                                k[0] = [0x00u8, 0xff][r.below(2) as usize];
+                                k
+                            } else {
+                                let len = r.below(5) as usize;
+                                (0..len).map(|_| r.below(4) as u8).collect()
+                            }
                         }
                     };
                     seen.insert(key.clone());
